@@ -82,6 +82,30 @@ Section StopProofs.
       + right. apply negb_true_iff in B. exact B.
   Qed.
 
+  (* ---------- explicit zero bounds survive setup() ---------- *)
+  Theorem explicit_zero_max_stops_at_once T mn d below s0 : 0 <= T -> step_of s0 = 0 ->
+    run_until S fwd T (cond_energy S step_of mn (setup_bound (Some 0) d) below) s0 = s0
+    /\ run_until S fwd T (cond_detector S step_of mn (setup_bound (Some 0) d) below) s0 = s0.
+  Proof.
+    intros HT H0. split.
+    - destruct (energy_cond_bounds T mn (setup_bound (Some 0) d) below s0 HT H0) as (k & E & Hk & _).
+      cbn [setup_bound] in *. assert (k = 0%nat) as -> by lia. exact E.
+    - destruct (detector_cond_bounds T mn (setup_bound (Some 0) d) below s0 HT H0) as (k & E & Hk & _).
+      cbn [setup_bound] in *. assert (k = 0%nat) as -> by lia. exact E.
+  Qed.
+  Theorem explicit_zero_min_checks_from_start T d mx below s0 : 0 <= T -> step_of s0 = 0 -> below s0 = true ->
+    run_until S fwd T (cond_energy S step_of (setup_bound (Some 0) d) mx below) s0 = s0
+    /\ run_until S fwd T (cond_detector S step_of (setup_bound (Some 0) d) mx below) s0 = s0.
+  Proof.
+    intros HT H0 Hb. split.
+    - destruct (energy_cond_bounds T (setup_bound (Some 0) d) mx below s0 HT H0) as (k & E & _ & _ & Hall).
+      cbn [setup_bound] in *. destruct k as [|k]; [exact E|].
+      destruct (Hall 0%nat ltac:(lia)) as [A|A]; [lia | cbn in A; congruence].
+    - destruct (detector_cond_bounds T (setup_bound (Some 0) d) mx below s0 HT H0) as (k & E & _ & _ & Hall).
+      cbn [setup_bound] in *. destruct k as [|k]; [exact E|].
+      destruct (Hall 0%nat ltac:(lia)) as [A|A]; [lia | cbn in A; congruence].
+  Qed.
+
   (* ---------- C06: splitting a run ---------- *)
   Lemma run_between_spec T e s : run_between S fwd step_of T e s = iter (Nat.min (Z.to_nat T) (Z.to_nat (e - step_of s))) s.
   Proof. unfold run_between. apply (while_upto S fwd step_of step_fwd). Qed.
